@@ -378,7 +378,9 @@ func runSCIONServer(ctx context.Context, log *slog.Logger, mtrcs *scionServerMet
 									Header:     slayers.PacketAuthOption{EndToEndOption: authOpt},
 									ScionLayer: &scionLayer,
 									PldType:    slayers.L4UDP,
-									Pld:        buf[len(buf)-int(udpLayer.Length):],
+									// the UDP header and the payload it delimits, i.e., the bytes decoded and
+									// served below: not necessarily the last udpLayer.Length bytes of the datagram
+									Pld: udpLayer.Contents[:len(udpLayer.Contents)+len(udpLayer.Payload)],
 								},
 								authBuf,
 								authMAC,
